@@ -19,7 +19,7 @@ def leafOk : Acc → Sym → Bool
   | .mode, .mode _ => true
   | .horiz1, .run _ => true
   | .horiz2, .run _ => true
-  | .unc, .unc u => !u.term || !u.bits.isEmpty
+  | .unc, .unc u => (!u.term || !u.bits.isEmpty) && decide (u.bits.length ≤ 6)
   | _, _ => false
 
 /-- `_state` is an inner node of the table that goes with `_accept`. -/
